@@ -191,9 +191,9 @@ func newRunner(tierName string, verbose bool) (*runner, error) {
 			r.active[k.ID] = true
 		}
 	}
-	r.cross = &interp.CrossCheck{Every: 400, Solvers: []string{"z3-new", "cvc5"}, TimeoutMs: 60000}
+	r.cross = &interp.CrossCheck{Every: 100, Solvers: []string{"z3-new", "cvc5"}, TimeoutMs: 60000}
 	if r.tier == 1 {
-		r.cross.Every = 100
+		r.cross.Every = 25
 	}
 	if s := os.Getenv("VERIF_CROSS_EVERY"); s != "" {
 		if n, err := strconv.Atoi(s); err == nil {
